@@ -95,6 +95,8 @@ class Walker:
         self.kf_hits = {}
         self.kf_cases = {}
         self.dead = set()
+        self.diverted = set()
+        self.reach = {}  # spec state -> (initial state, actions that really led the implementation there)
         self.samples = []
         self.violations = []
         self._closure = {}
@@ -193,33 +195,54 @@ class Walker:
                         return (u, lab, v)
         return None
 
-    # ---- one run: tree path to the target's source, the target, then greedy extension
+    # ---- one run: a path to the target's source, the target, then greedy extension.  The path is the sequence of
+    # actions that really led the implementation there in an earlier run when one is known (self.reach), else the
+    # BFS-tree path of the graph (which spec nondeterminism / deviation havoc may make unrealisable: "diverted")
+    def _first_edge(self, cur, bname, args):
+        for s in cur:
+            for e2 in self.group.get((s, bname, args), ()):
+                return e2
+        return None
+
     def _run(self, target):
         g = self.g
-        plan = self._tree_path(target[0]) + [target]
-        init = self.root[target[0]]
+        tname, targs = g.label(target[1])
+        real = self.reach.get(target[0])
+        if real is not None:
+            init, steps = real
+            plan = [(b, a, None) for (b, a) in steps] + [(base_name(tname), targs, target[0])]
+        else:
+            init = self.root[target[0]]
+            plan = []
+            for (u0, lab0, v0) in self._tree_path(target[0]):
+                n0, a0 = g.label(lab0)
+                plan.append((base_name(n0), a0, u0))
+            plan.append((base_name(tname), targs, target[0]))
         drv = self.factory()
         path = []
+        acts = []
         try:
             drv.reset(g.state(init))
             cur = self.closure(init)[0]
             k = 0
             while len(path) < self.max_len:
+                e = None
                 if k < len(plan):
-                    e = plan[k]
+                    pb, pa, src = plan[k]
                     k += 1
-                    if e[0] not in cur or (e[0], e[1]) in self.blocked:
-                        # diverted by spec nondeterminism or a known-bad edge: give this target up; the state the
-                        # plan expected here is not reached by this implementation along the tree path
-                        if e[0] not in cur:
-                            self.dead.add(e[0])
-                        self._done(target)
-                        self.alt.add(target)
-                        e = self._local_target(cur)
+                    if src is None or src in cur:
+                        e = self._first_edge(cur, pb, pa)
+                        if e is not None and (e[0], e[1]) in self.blocked:
+                            e = None
+                    if e is None:
+                        # diverted: the planned state is not where this implementation is; carry on from here.  The
+                        # state the tree path expected is dead for tree-path planning (phase 2 still reaches whatever
+                        # the implementation really reaches)
+                        if src is not None and src not in cur:
+                            self.dead.add(src)
+                        self.diverted.add(target)
                         k = len(plan)
-                        if e is None:
-                            break
-                else:
+                if e is None and k >= len(plan):
                     e = self._local_target(cur)
                     if e is None:
                         break
@@ -299,6 +322,11 @@ class Walker:
                     self._done(e)
                     self.alt.add(e)
                 cur = frozenset(new)
+                acts.append((bname, args))
+                if len(cur) == 1:
+                    r = next(iter(cur))
+                    if r not in self.reach:
+                        self.reach[r] = (init, list(acts))
             post = getattr(drv, "epilogue", None)
             if post is not None:
                 post()
@@ -314,19 +342,9 @@ class Walker:
 
     def walk(self):
         t0 = time.time()
-        order = sorted(self.targets, key=lambda e: (self.depth[e[0]], e))
         seen_v = set()
-        for target in order:
-            if target not in self.targets:
-                continue
-            if self.dead and self._through_dead(target[0]):
-                self._done(target)
-                self.alt.add(target)
-                continue
-            if self.budget_s and time.time() - t0 > self.budget_s:
-                break
-            if len(self.violations) >= self.max_violations:
-                break
+
+        def attempt(target):
             try:
                 self._run(target)
             except Violation as v:
@@ -334,7 +352,39 @@ class Walker:
                 if key not in seen_v:
                     seen_v.add(key)
                     self.violations.append(v.record)
-            self._done(target) if target in self.targets and self._stuck(target) else None
+
+        def out_of_budget():
+            return (self.budget_s and time.time() - t0 > self.budget_s) or len(self.violations) >= self.max_violations
+
+        # phase 1: every target once, nearest first
+        for target in sorted(self.targets, key=lambda e: (self.depth[e[0]], e)):
+            if target not in self.targets or target in self.diverted:
+                continue
+            if target[0] not in self.reach and self.dead and self._through_dead(target[0]):
+                continue
+            if out_of_budget():
+                break
+            attempt(target)
+        # phase 2: states the implementation really reached keep being revisited along the actions that led there until
+        # every action instance enabled in them has been exercised (complete for what the implementation can reach,
+        # whatever the BFS tree looked like)
+        progress = True
+        while progress and not out_of_budget():
+            progress = False
+            for r in list(self.reach):
+                while self.todo.get(r) and not out_of_budget():
+                    lab, v = next(iter(self.todo[r]))
+                    target = (r, lab, v)
+                    before = len(self.todo.get(r, ()))
+                    attempt(target)
+                    if len(self.todo.get(r, ())) >= before:   # no progress on this state: give the target up
+                        self._done(target)
+                        self.alt.add(target)
+                    progress = True
+        # whatever is left was never reached by this implementation
+        for target in list(self.targets):
+            self._done(target)
+            self.alt.add(target)
         return self
 
     def _through_dead(self, u):
